@@ -8,6 +8,8 @@ NS = 13
 
 def lemmas(tier):
     L = []
+    global NS
+    NS = 16 if tier == "thorough" else 13  # thorough adds three depth-3 type expressions
 
     def add(lid, params, expr, pre, site):
         L.append(xh.Lemma(lid, params, ["return " + expr], pre=pre, meta={"site": site, "expr": expr}))
@@ -91,7 +93,7 @@ def check(tier):
             else:
                 chk.violation("%s fails for %r: %s" % (site, r.args, detail), {"kind": "python", "code": code, "site": "C18 " + lid, "args": r.args})
     chk.ev.coverage["functions_encoded"] = [evidence.fn_ref(f) for f in (model.convert_to_lsp_type, model.list_converter, model.partial_apply, model.create_lsp_model, model.TypeAlias.__eq__, model.Structure.__eq__, model.Request.__eq__, model.LSPModel.__eq__, gm.main)]
-    chk.ev.coverage["bounds"] = {"declarations per list": "<= 1 (<= 2 for merge and equality)", "type expression": "13 shapes covering every TypeKind of lsp.schema.json, depth <= 2, all 9 base names", "annotation keys": "all subsets", "models on the command line": "<= 3, violation at any index, 4 plugins"}
+    chk.ev.coverage["bounds"] = {"declarations per list": "<= 1 (<= 2 for merge and equality)", "type expression": "%d shapes covering every TypeKind of lsp.schema.json, depth <= %d, all 9 base names" % (16 if tier == "thorough" else 13, 3 if tier == "thorough" else 2), "annotation keys": "all subsets", "models on the command line": "<= 3, violation at any index, 4 plugins"}
     chk.ev.coverage["outside_bounds"] = ["documents larger than the bound", "jsonschema itself (validate is stubbed to raise at a symbolic index for the gate lemma)", "annotation-only differences in equality (the statement says 'structurally')"]
     chk.ev.coverage["stubs"] = ["jsonschema.validate raises ValidationError at a symbolic model index (gate lemma)", "plugin module replaced by a recorder"]
     chk.ev.coverage["rule"] = "one lemma per declaration kind / clause with the optional keys, type-shape selector, base name and edit position symbolic; non-trivial = twin reached"
